@@ -207,3 +207,20 @@ def run(ctx):
                     and mentions(inner[0].args[1], lambda s: s == ("param", 2)) and not mentions(inner[0].args[1], lambda s: s == fe[0].term)
                 ctx.check(ok, "D3-WRAPPER", fn, "ok-path-%d" % i, "find_entry(path)?.verify(path)", "%s does not verify against the entry found for the same path" % fn, fn_span(body))
         errprop(ctx, fn, ps, body, rule="D3-ERRPROP", no_effects_after_error=("Entry::verify_",), floor=1, skip=("Entry::verify_",))
+
+    # verify_checksums: one verdict per recorded checksum, in order, each for that checksum's own digest
+    for fn in ("distinfo::Entry::verify_checksums", "distinfo::Distinfo::verify_checksums"):
+        ps = ctx.paths(fn)
+        if not ps:
+            continue
+        body = ctx.body(fn)
+        backs = [p for p in ps if p.end[0] == "back"]
+        ok = bool(backs)
+        for p in backs:
+            pu = [e for e in p.events if ev_is(e, "Vec::push")]
+            nx = [e for e in p.events if e.kind == "call" and e.name.endswith("::next") and e.bb in body.loops]
+            ok = ok and len(pu) == 1 and bool(nx) and is_call(pu[0].args[1], VCI) and mentions(nx[0].args[0], lambda s: s[0] == "field" and s[3] == "checksums") \
+                and mentions(call_args(pu[0].args[1])[2], lambda s: s[0] == "field" and s[3] == "digest" and mentions(s, lambda u: u == nx[0].term)) \
+                and mentions(call_args(pu[0].args[1])[1], lambda s: s == ("param", 2)) and not mentions(nx[0].args[0], lambda s: is_call(s, "::rev", "::skip", "::take", "::filter"))
+        ctx.check(ok, "D2-ALL-CHECKSUMS", fn, "one-verdict-per-checksum", "results.push(verify_checksum_internal(path, c.digest)) for every recorded checksum, in order",
+                  "%s does not produce exactly one verdict per recorded checksum (in order, for that checksum's own digest, on the given path)" % fn, fn_span(body))
